@@ -42,8 +42,10 @@ pub struct LockStep {
     /// clock edges issued so far (Real mode); the next edge is number `edge + 1`
     pub edge: i64,
     pub last_b: i64,
-    /// key presses since the last sampling: (number of the edge they precede, enable bit seen by the SUT)
-    pub presses: Vec<(i64, bool)>,
+    /// key presses since the last sampling: (number of the edge they precede, enable bit seen by the
+    /// SUT, IE flag of the SUT at that instant). A press with the enable bit set but IE clear is one
+    /// the statement says nothing about: it may be held or forgotten.
+    pub presses: Vec<(i64, bool, bool)>,
     pub hint: IoHint,
     pub insns: u64,
     pub entries: u64,
@@ -266,38 +268,56 @@ impl LockStep {
 
     /// interrupt sampling at the end of instruction `info`, given the boundary edge `b`
     fn sampling(&mut self, info: &mut StepInfo, b: i64) -> Result<(), Violation> {
-        let any = self.presses.iter().any(|p| p.1);
+        // definite press: enable bit and IE both set at the instant of the press (the case the
+        // statement speaks about); maybe-press: enable bit set, IE clear (held or forgotten)
+        let def = |p: &(i64, bool, bool)| p.1 && p.2;
+        let may = |p: &(i64, bool, bool)| p.1 && !p.2;
+        let any_def = self.presses.iter().any(def);
+        let any_may = self.presses.iter().any(may);
+        let held_def = self.rf.iff && !self.rf.iff_unknown;
+        let held_may = self.rf.iff && self.rf.iff_unknown;
         if !info.samples {
-            if any {
+            if any_def {
                 self.rf.iff = true;
                 self.rf.iff_unknown = false;
+            } else if any_may && !held_def {
+                self.rf.iff = true;
+                self.rf.iff_unknown = true;
             }
             return Ok(());
         }
-        let known_set = (self.rf.iff && !self.rf.iff_unknown) || any;
         let ie = self.rf.fr & F_IE != 0;
-        if known_set && ie {
+        if ie {
             let c_e = Ref::entry_cost(self.rf.sp) as i64;
             let s1 = if self.asm() || !self.cost_valid { i64::MAX } else { b - c_e };
-            let iff1 = (self.rf.iff && !self.rf.iff_unknown) || self.presses.iter().any(|p| p.1 && p.0 <= s1);
-            if iff1 || self.rf.iff_unknown {
-                // (if only a possibly-forgotten press precedes the sampling edge, taking the interrupt
-                // is still one of the two allowed outcomes; the state comparison decides)
-                let late = self.presses.iter().any(|p| p.1 && p.0 > s1);
-                if !iff1 && !self.sut_took_interrupt() {
-                    // the held-or-forgotten press was forgotten; the fresh press came after the sampling edge
-                    self.rf.iff = true;
-                    self.rf.iff_unknown = false;
-                    return Ok(());
-                }
-                self.rf.iff = false;
-                self.rf.iff_unknown = false;
+            let def1 = held_def || self.presses.iter().any(|p| def(p) && p.0 <= s1);
+            let may1 = held_may || self.presses.iter().any(|p| may(p) && p.0 <= s1);
+            let late_def = self.presses.iter().any(|p| def(p) && p.0 > s1);
+            let late_may = self.presses.iter().any(|p| may(p) && p.0 > s1);
+            let after = |rf: &mut Ref| {
+                rf.iff = late_def || late_may;
+                rf.iff_unknown = !late_def && late_may;
+            };
+            if def1 {
                 self.rf.enter_interrupt(info);
                 self.entries += 1;
-                if late {
+                after(&mut self.rf);
+            } else if may1 {
+                // held or forgotten: both outcomes are allowed; the state comparison decides
+                if self.sut_took_interrupt() {
+                    self.rf.enter_interrupt(info);
+                    self.entries += 1;
+                    after(&mut self.rf);
+                } else if late_def {
+                    // forgotten; the definite press came after the sampling edge of an entry that did
+                    // not happen: it is still latched
                     self.rf.iff = true;
+                    self.rf.iff_unknown = false;
+                } else {
+                    self.rf.iff = false;
+                    self.rf.iff_unknown = false;
                 }
-            } else {
+            } else if late_def {
                 return Err(self.v(
                     "int-sampling",
                     format!(
@@ -308,16 +328,13 @@ impl LockStep {
                         s1
                     ),
                 ));
+            } else {
+                // (only maybe-presses after the hypothetical sampling edge: no entry, forgotten or not
+                // is decided at this very instruction end, so nothing stays latched)
+                self.rf.iff = false;
+                self.rf.iff_unknown = false;
             }
-        } else if ie && self.rf.iff_unknown {
-            // a press sampled earlier with IE clear may have been held: follow the SUT
-            self.rf.iff = false;
-            self.rf.iff_unknown = false;
-            if self.sut_took_interrupt() {
-                self.rf.enter_interrupt(info);
-                self.entries += 1;
-            }
-        } else if !ie && (known_set || self.rf.iff_unknown) {
+        } else if held_def || held_may || any_def || any_may {
             // sampled with IE clear: forgotten or held - not specified
             self.rf.iff = true;
             self.rf.iff_unknown = true;
@@ -489,9 +506,14 @@ impl LockStep {
             ));
         }
         // a halt does not sample the key flip-flop: presses made before it stay latched
-        if self.presses.iter().any(|p| p.1) && !info.interrupted {
-            self.rf.iff = true;
-            self.rf.iff_unknown = false;
+        if !info.interrupted {
+            if self.presses.iter().any(|p| p.1 && p.2) {
+                self.rf.iff = true;
+                self.rf.iff_unknown = false;
+            } else if self.presses.iter().any(|p| p.1) && !(self.rf.iff && !self.rf.iff_unknown) {
+                self.rf.iff = true;
+                self.rf.iff_unknown = true;
+            }
         }
         self.presses.clear();
         let ss = rstate_of(self.sut.state());
@@ -624,8 +646,9 @@ impl LockStep {
             Stim::KeyInt => {
                 let en = self.sut.bus().is_key_edge_int_enabled();
                 let n = if self.asm() { i64::MIN / 2 } else { self.edge + 1 };
+                let ie = self.sut.registers().interrupt_enable_flag();
                 s.apply(&mut self.sut);
-                self.presses.push((n, en));
+                self.presses.push((n, en, ie));
                 if self.at_boundary() {
                     self.hint = io_snapshot(&self.sut);
                 }
